@@ -63,6 +63,7 @@ func addInt(x *saferith.Int, d int64) *saferith.Int {
 }
 
 func (c *cheat) before(s round.Session) {
+	c.frostBefore(s)
 	if typeName(s) != "presign3" {
 		return
 	}
@@ -168,6 +169,7 @@ func (c *cheat) recommit(next round.Session) {
 }
 
 func (c *cheat) beforeSend(next round.Session, m *round.Message) {
+	c.frostBeforeSend(next, m)
 	if c.newCommit != nil {
 		if f := field(m.Content, "Commitment"); f.IsValid() && f.CanSet() && f.Type() == reflect.TypeOf(c.newCommit) {
 			f.Set(reflect.ValueOf(c.newCommit))
@@ -377,4 +379,58 @@ func CommitCheat(s *Session, cheater party.ID, rule string, sid []byte, mk func(
 			return wrap(r, c), nil
 		}
 	}, sid)
+}
+
+// setUnexported replaces an unexported field of a round object (read / written through unsafe).
+func setUnexported(s interface{}, name string, f func(old interface{}) interface{}) bool {
+	v := field(s, name)
+	if !v.IsValid() || !v.CanAddr() {
+		return false
+	}
+	w := reflect.NewAt(v.Type(), unsafe.Pointer(v.UnsafeAddr())).Elem()
+	w.Set(reflect.ValueOf(f(w.Interface())))
+	return true
+}
+
+// FrostSignCheat: a FROST signer that answers inconsistently with what it published (FrostAlg.tla): rule "z" adds 1 to
+// the response it broadcasts, "nonce" answers with another first nonce than the one it committed to, "share" answers
+// with another secret share than the one behind its public share.  Nothing it sends is malformed.
+func FrostSignCheat(s *Session, cheater party.ID, rule string, sid []byte, mk func() protocol.StartFunc) {
+	c := &cheat{rule: "frost:" + rule}
+	s.Makers[cheater] = multi(func() protocol.StartFunc {
+		inner := mk()
+		return func(sessionID []byte) (round.Session, error) {
+			r, err := inner(sessionID)
+			if err != nil {
+				return nil, err
+			}
+			return wrap(r, c), nil
+		}
+	}, sid)
+}
+
+func (c *cheat) frostBefore(s round.Session) {
+	if !strings.HasPrefix(c.rule, "frost:") || typeName(s) != "round2" || !field(s, "d_i").IsValid() {
+		return
+	}
+	bump := func(old interface{}) interface{} {
+		x := old.(curve.Scalar)
+		return s.Group().NewScalar().Set(x).Add(one(s.Group())) // a new object: the caller's share must stay as it is
+	}
+	switch c.rule {
+	case "frost:nonce":
+		setUnexported(s, "d_i", bump)
+	case "frost:share":
+		setUnexported(s, "s_i", bump)
+	}
+}
+
+func (c *cheat) frostBeforeSend(next round.Session, m *round.Message) {
+	if c.rule != "frost:z" || typeName(m.Content) != "broadcast3" {
+		return
+	}
+	if f := field(m.Content, "Z_i"); f.IsValid() && f.CanSet() {
+		cur := f.Interface().(curve.Scalar)
+		f.Set(reflect.ValueOf(next.Group().NewScalar().Set(cur).Add(one(next.Group()))))
+	}
 }
